@@ -25,13 +25,16 @@ func main() {
 		Clauses: map[int64]string{1: "invocations-not-exactly-the-prescribed-ones", 2: "registration-outcome", 3: "invocation-without-message",
 			98: "unparseable-observation", 99: "unparseable-operation"},
 		OpNames: map[int64]string{1: "add-entity", 2: "add-feature", 3: "add-function", 4: "set-data", 5: "get-data", 6: "connect",
-			7: "disconnect", 8: "inbound-datagram", 9: "add-response-callback", 10: "add-result-callback", 11: "factory-query", 12: "overlapping-arrivals"},
+			7: "disconnect", 8: "inbound-datagram", 9: "add-response-callback", 10: "add-result-callback", 11: "factory-query", 12: "overlapping-arrivals", 13: "back-to-back-arrivals"},
 		NewImpl: func() hx.Impl { return &impl{w: dispatch.New()} },
 		Gen: func(r *hx.Rng, tier string, i int) []hx.Zs {
 			switch i % 4 {
 			case 3:
 				return dispatch.Random(r, tier, 25)
 			case 1:
+				if i%8 == 1 {
+					return dispatch.SeqHistory(r, tier)
+				}
 				return dispatch.ParHistory(r, tier)
 			}
 			return dispatch.CallbackHistory(r, tier)
